@@ -8,6 +8,11 @@ PROP = "C15"
 SEQ_A = "SKEKTGKEYEKE"            # charged 12-mer with S/T/Y; phosphosites set in the order 9, 1, 5
 SEQ_B = "GSGSTGNQAGYG"            # uncharged: kappa -1 path
 SEQ_C = "GSGSGSGSGSKKKGSGSGSEEEGSGS"  # 26-mer, 20 neutrals: the >=18-neutral delta-max regime
+SEQ_D = "EDSKRKRKYE"                  # delta/delta-max = 1.02: the (1, 1.1) clamp window of kappa; sites 9, 3
+
+
+def world_names():
+    return ["A", "D", "B"] if TIER[0] == "quick" else ["A", "A2", "B", "C", "D", "P"]
 UA = {a: ("K" if a in "KRH" else ("S" if a in "ST" else "A")) for a in "ACDEFGHIKLMNPQRSTVWY"}
 PALETTE = {a: "teal" for a in "ACDEFGHIKLMNPQRSTVWY"}
 TIER = ["quick"]
@@ -18,13 +23,15 @@ def build(only=None):
     from localcider.sequenceParameters import SequenceParameters as SP
     import localcider.sequenceParameters as M
     M.open = _MEMOPEN      # write_compfile writes into memory (part of the initial world, so not a state change)
-    names = ["A", "A2", "B"] + (["C", "P"] if TIER[0] == "thorough" else [])
+    names = world_names()
     objs = {}
     for n in names:
         if only is not None and n != only:
             continue
         if n in ("A", "A2"):
             objs[n] = SP(SEQ_A)
+        elif n == "D":
+            objs[n] = SP(SEQ_D)
         elif n == "B":
             objs[n] = SP(SEQ_B)
         elif n == "C":
@@ -34,6 +41,8 @@ def build(only=None):
     for n in ("A", "A2"):
         if n in objs:
             objs[n].set_phosphosites([9, 1, 5])
+    if "D" in objs:
+        objs["D"].set_phosphosites([9, 3])
     if "P" in objs:
         objs["P"].set_HTMLColorResiduePalette(dict(PALETTE))
     return objs
@@ -59,6 +68,7 @@ def per_object_ops(n):
         ("get_kappa_X(ED,KR)", g(lambda o: o.get_kappa_X(['E', 'D'], ['K', 'R']))),
         ("get_deltaMax()", g(lambda o: o.get_deltaMax())),
         ("get_deltaMax(True)", g(lambda o: o.get_deltaMax(True))),
+        ("get_deltaMax(1)", g(lambda o: o.get_deltaMax(1))),
         ("get_delta", g(lambda o: o.get_delta())),
         ("get_countPos", g(lambda o: o.get_countPos())),
         ("get_countNeg", g(lambda o: o.get_countNeg())),
@@ -124,7 +134,7 @@ def _write_compfile(o):
 
 
 def all_ops():
-    names = ["A", "A2", "B"] + (["C", "P"] if TIER[0] == "thorough" else [])
+    names = world_names()
     ops = []
     for n in names:
         ops += per_object_ops(n)
@@ -562,7 +572,7 @@ def run(tier, seed, t0):
         frontier = [([], None)]
         first = True
         depth = 0
-        cap = 120 if tier == "quick" else 1500
+        cap = 200 if tier == "quick" else 4000
         while frontier:
             if len(reps) > cap:
                 # a state space that does not close (e.g. a cache that grows with every call) - stop expanding, say so
@@ -656,9 +666,8 @@ def run(tier, seed, t0):
              "different lengths, equal composition in different spellings, permutations, equal strings): for every input a, a fresh "
              "world analyses a with 30 calls and then every other input (and a again on a new object) in turn; each result must "
              "equal the input's solo result in a pristine world (every ordered pair occurs; a failure is minimised to a pair where "
-             "possible). non-trivial = states other than the initial one; transitions = (state, call) pairs executed" % (sorted(build.__code__.co_consts and (["A", "A2", "B"] + (["C", "P"] if tier == "thorough" else []))),
-                                 len(ops), len(ops) // (3 if tier == "quick" else 5), max_alt, len(pair_inputs(tier))),
-        bounds={"objects": 3 if tier == "quick" else 5, "ops": len(ops), "depth": "fixpoint", "merge_validation_per_state": max_alt},
+             "possible). non-trivial = states other than the initial one; transitions = (state, call) pairs executed" % (world_names(), len(ops), len(ops) // len(world_names()), max_alt, len(pair_inputs(tier))),
+        bounds={"objects": len(world_names()), "ops": len(ops), "depth": "fixpoint", "merge_validation_per_state": max_alt},
         assumptions=["state outside the canonical serialisation (third-party private state) is assumed irrelevant; merge validation "
                      "would reveal a dependence on it"])
 
